@@ -479,6 +479,7 @@ class GlobalFittingData(object):
         self.psfhelper = None
         self.blank = False
         self.cube_index = None
+        self.galactic = False
         return
 
 
